@@ -49,7 +49,7 @@ func init() {
 			{Name: "call expression on a value whose kind was not tested", File: "eval.go", Old: "\t\tif baseExpr.Kind() != reflect.Func {\n\t\t\tnode.errorf(\"node %q is not func kind %q\", node.BaseExpr, getTypeString(baseExpr))\n\t\t}\n", New: "", Rule: "C12.call"},
 			{Name: "assignable is taken for identical before asserting to Func (original defect)", File: "eval.go", Old: "baseExpr.Convert(funcType).Interface().(Func)", New: "baseExpr.Interface().(Func)", Rule: "C12.iface"},
 			{Name: "safe writer recognised by assignability", File: "eval.go", Old: "\t\t\tif term.Type() == safeWriterType {", New: "\t\t\tif safeWriterType.AssignableTo(term.Type()) {", Rule: "C12.iface"},
-			{Name: "Renderer asserted after testing for another interface", File: "eval.go", Old: "\t\t\t\t\tif v.Type().Implements(rendererType) {", New: "\t\t\t\t\tif v.Type().Implements(stringerType) {", Rule: "C12.iface"},
+			{Name: "Renderer asserted after testing for another interface", File: "eval.go", Old: "\t\t\t\t\tif v.Type().Implements(rendererType) && !isNilInterface(v) {", New: "\t\t\t\t\tif v.Type().Implements(stringerType) && !isNilInterface(v) {", Rule: "C12.iface"},
 			{Name: "'_' without a piped value dereferences nil in evaluateArgs (original defect)", File: "eval.go", Old: "\t\t\tif pipedArg == nil {\n\t\t\t\treturn nil, fmt.Errorf(\"argument for position %d in %s is a '_' placeholder, but there is no piped value\", slot, fnType)\n\t\t\t}\n\t\t\tterm = *pipedArg", New: "\t\t\tterm = *pipedArg", Rule: "C12.piped"},
 			{Name: "'_' without a piped value dereferences nil in Arguments.Get (original defect)", File: "func.go", Old: "\t\t\tif a.pipedVal == nil {\n\t\t\t\te.errorf(\"'_' placeholder used without a piped value\")\n\t\t\t}\n", New: "", Rule: "C12.piped"},
 			{Name: "validity guard before formatting the type dropped (agent seed C12/2)", File: "eval.go", Old: "\tif !term.IsValid() {\n\t\tnode.errorf(\"base expression of command pipe node is invalid value\")\n\t}\n", New: "", Rule: "C12.report"},
